@@ -23,7 +23,9 @@ inductive Prov where
   | user
   /-- written literally in a template -/
   | lit
-  /-- a segment of an absolute path `::core::…` (written by `absPath` only, always right after `::`) -/
+  /-- the first segment of an absolute path (written by `absPath` only, right after the leading `::`) -/
+  | root
+  /-- a further segment of an absolute path `::core::…` (written by `absPath` only, always right after `::`) -/
   | abs
   /-- a member name: method, associated item, item being defined (after `.`, `::`, `fn`, `type`, or before `=` in a binding) -/
   | mem
@@ -105,7 +107,9 @@ def attrToks (inner : List τ) : List τ := (§"#") :: bracket inner
 end
 
 /-- `::a::b::c` — the only producer of `abs` tokens -/
-def absPath (segs : List String) : GToks := segs.map (fun s => { s, p := .abs, pre := "::" })
+def absPath : List String → GToks
+  | [] => []
+  | r :: segs => { s := r, p := .root, pre := "::" } :: segs.map (fun s => { s, p := .abs, pre := "::" })
 
 /-- `<i>usize` — the only producer of `num` tokens -/
 def idxLit (i : Nat) : GTok := { s := toString i ++ "usize", p := .num }
